@@ -558,3 +558,8 @@ class FlushMode(vlib.Mode):
 
 def modes(tier):
     return [FlushMode()]
+
+# the plain hub underneath, as translated from the current source (Relay/Tie/PlainHub.lean)
+from tiecommon import TIE_PLAINHUB, TIE_PLAINHUB_NOTE
+THEOREMS = list(THEOREMS) + TIE_PLAINHUB
+RULE = TIE_PLAINHUB_NOTE + RULE
